@@ -208,7 +208,7 @@ fn main() {
         let small = s.threads == 2 && s.pairs == 1;
         // (bound, cap on free deviations per schedule, cap on executions)
         let (bound, free, cap) = if opts.thorough() {
-            if small && s.clock_step == 0 { (3, 3, 2_000_000) } else if s.threads == 2 { (2, 3, 600_000) } else { (2, 2, 300_000) }
+            if small && s.clock_step == 0 { (3, 3, 600_000) } else if s.threads == 2 { (2, 3, 300_000) } else { (2, 2, 150_000) }
         } else if small && s.clock_step == 0 {
             (2, 3, 40_000)
         } else {
